@@ -69,7 +69,7 @@ theorem le_cases {a q : Snap} (h : a.le q = true) :
 
 /-- `q - c` succeeds for a change at or before `q`, and its length in milliseconds is the beat distance times
 the beat length -/
-theorem sub_offset (M : Rat) (hM : 0 < M) (c : BcSnap) (q : Snap) (hc : GoodChange M c) (hle : c.snap.le q = true)
+theorem bms_sub_offset (M : Rat) (hM : 0 < M) (c : BcSnap) (q : Snap) (hc : GoodChange M c) (hle : c.snap.le q = true)
     (hq : 0 ≤ q.beat) :
     ∃ d, q.sub c.snap = .ok d ∧ d.offset c.bpm c.met = snapDist c.snap q M * beatLen c.bpm := by
   obtain ⟨hmet, hsm, hb0, hbM, _⟩ := hc
@@ -99,35 +99,35 @@ theorem sub_offset (M : Rat) (hM : 0 < M) (c : BcSnap) (q : Snap) (hc : GoodChan
   ring
 
 /-- the change times as `timeAt` accumulates them -/
-def cumTimes : Rat → BcSnap → List BcSnap → List BcOff
+def bmsCumTimes : Rat → BcSnap → List BcSnap → List BcOff
   | _, _, [] => []
   | T, cur, nxt :: rest =>
     let T' := T + snapDist cur.snap nxt.snap cur.met * beatLen cur.bpm
-    ⟨nxt.bpm, nxt.met, T'⟩ :: cumTimes T' nxt rest
+    ⟨nxt.bpm, nxt.met, T'⟩ :: bmsCumTimes T' nxt rest
 
-theorem cumOffsets_eq (M : Rat) (hM : 0 < M) (rest : List BcSnap) :
+theorem bms_cumOffsets_eq (M : Rat) (hM : 0 < M) (rest : List BcSnap) :
     ∀ (T : Rat) (cur : BcSnap), GoodChange M cur → (∀ c ∈ rest, GoodChange M c) → ChainLe cur rest →
-      cumOffsets T cur rest = .ok (cumTimes T cur rest) := by
+      cumOffsets T cur rest = .ok (bmsCumTimes T cur rest) := by
   induction rest with
   | nil => intro T cur _ _ _; rfl
   | cons nxt rest ih =>
     intro T cur hcur hall hch
     obtain ⟨hle, hch'⟩ := hch
     have hn : GoodChange M nxt := hall nxt (by simp)
-    obtain ⟨d, hd, hoff⟩ := sub_offset M hM cur nxt.snap hcur hle hn.2.2.1
-    simp only [cumOffsets, hd, bind, Except.bind, cumTimes]
+    obtain ⟨d, hd, hoff⟩ := bms_sub_offset M hM cur nxt.snap hcur hle hn.2.2.1
+    simp only [cumOffsets, hd, bind, Except.bind, bmsCumTimes]
     have hmet : cur.met = M := hcur.1
     rw [hoff, ih _ nxt hn (fun c hc => hall c (by simp [hc])) hch']
     simp [hmet]
 
 /-- the tempo changes paired with their times, in file (ascending) order -/
 def zipTimes (T : Rat) (cur : BcSnap) (rest : List BcSnap) : List (BcSnap × BcOff) :=
-  (cur :: rest).zip (⟨cur.bpm, cur.met, T⟩ :: cumTimes T cur rest)
+  (cur :: rest).zip (⟨cur.bpm, cur.met, T⟩ :: bmsCumTimes T cur rest)
 
 theorem zipTimes_cons (T : Rat) (cur nxt : BcSnap) (rest : List BcSnap) :
     zipTimes T cur (nxt :: rest) =
       (cur, ⟨cur.bpm, cur.met, T⟩) :: zipTimes (T + snapDist cur.snap nxt.snap cur.met * beatLen cur.bpm) nxt rest := by
-  simp [zipTimes, cumTimes]
+  simp [zipTimes, bmsCumTimes]
 
 theorem Snap.gt_of_gt_of_le' {a p q : Snap} (h : a.gt q = true) (hle : a.le p = true) : p.gt q = true := by
   simp only [Snap.gt, Snap.le, Snap.lt, Snap.eqv, Bool.and_eq_true, Bool.not_eq_true', Bool.or_eq_true,
@@ -180,10 +180,10 @@ theorem lookupOffset_eq_timeAtAux (M : Rat) (hM : 0 < M) (q : Snap) (hq : 0 ≤ 
   induction rest with
   | nil =>
     intro T cur hcur _ _ hle
-    obtain ⟨d, hd, hoff⟩ := sub_offset M hM cur q hcur hle hq
+    obtain ⟨d, hd, hoff⟩ := bms_sub_offset M hM cur q hcur hle hq
     have hgt : cur.snap.gt q = false := by rw [gt_eq_not_le, hle]; rfl
     rw [hcur.1] at hoff
-    simp only [zipTimes, cumTimes, List.zip_cons_cons, List.zip_nil_right, List.reverse_cons, List.reverse_nil, List.nil_append,
+    simp only [zipTimes, bmsCumTimes, List.zip_cons_cons, List.zip_nil_right, List.reverse_cons, List.reverse_nil, List.nil_append,
       lookupOffset, List.dropWhile_cons, hgt, Bool.false_eq_true, if_false, hd, bind, Except.bind, timeAtAux, hoff, hcur.1]
   | cons nxt rest ih =>
     intro T cur hcur hall hch hle
@@ -215,7 +215,7 @@ theorem lookupOffset_eq_timeAtAux (M : Rat) (hM : 0 < M) (q : Snap) (hq : 0 ≤ 
         · have hge := chain_all_ge nxt rest hch' p.1 hm
           exact Snap.gt_of_gt_of_le' hgt hge
       rw [lookupOffset_append_right _ _ _ (dropWhile_all _ _ hallgt)]
-      obtain ⟨d, hd, hoff⟩ := sub_offset M hM cur q hcur hle hq
+      obtain ⟨d, hd, hoff⟩ := bms_sub_offset M hM cur q hcur hle hq
       have hgtc : cur.snap.gt q = false := by rw [gt_eq_not_le, hle]; rfl
       rw [hcur.1] at hoff
       have hnq' : nxt.snap.le q = false := by
